@@ -100,7 +100,10 @@ def _extract(ctx, e2e):
         rng = ctx.rng("extract", i)
         nt, npz = int(rng.integers(2, 14)), int(rng.integers(2, 25))
         t = float(rng.choice([0, 10, 300])) + float(rng.choice([0.5, 50, 100, 250])) * numpy.arange(nt)
-        p = round(float(rng.uniform(-5, 20)), 2) + round(float(rng.uniform(0.1, 6)), 3) * numpy.arange(npz)
+        dp_ = round(float(rng.uniform(0.1, 6)), 3)
+        p0_ = [round(float(rng.uniform(-5, 20)), 2), 0.0, -dp_ * int(rng.integers(1, npz))][int(rng.integers(0, 3))]   # arbitrary / P_MIN = 0 / a zero node inside
+        p = p0_ + dp_ * numpy.arange(npz)
+        p[numpy.abs(p) < 1e-9 * dp_] = 0.0
         k = int(rng.integers(1, 6))
         names = [NAMES[int(j)] for j in rng.permutation(len(NAMES))[:k]]
         funcs = [smooth(rng) for _ in names]
@@ -110,13 +113,22 @@ def _extract(ctx, e2e):
         write_tables(wd, names + distract, funcs + [smooth(rng) for _ in distract], t, p, ["pandas", "oracle"][i % 2])
         by_t = bool(i % 2)
         axis, other = (t, p) if by_t else (p, t)
-        where = ["on-grid", "between", "below-range", "above-range"][(i // 2) % 4]
+        where = ["on-grid", "between", "below-range", "above-range", "first-interval", "around-zero-node", "last-interval", "between"][(i // 2) % 8]
+        if where == "around-zero-node" and not numpy.any(axis == 0):
+            where = "first-interval"
         if where == "on-grid":
             y = float(axis[int(rng.integers(0, len(axis)))])
         elif where == "between":
             j = int(rng.integers(0, len(axis) - 1)) if len(axis) > 1 else 0
             frac = float(rng.choice([0.1, 0.3, 0.45, 0.55, 0.8]))
             y = float(axis[j] + frac * (axis[min(j + 1, len(axis) - 1)] - axis[j]))
+        elif where in ("first-interval", "last-interval", "around-zero-node"):
+            # the edges of the table and a node at exactly zero (T_MIN = 0, P_MIN = 0 are the usual grids): both halves of the interval
+            j = 0 if where == "first-interval" else len(axis) - 2 if where == "last-interval" else int(numpy.argmax(axis == 0))
+            up = (j + 1 < len(axis)) and (where != "around-zero-node" or j == 0 or rng.random() < 0.5)
+            j2 = j + 1 if up else j - 1
+            frac = float(rng.choice([0.04, 0.2, 0.4, 0.49, 0.51, 0.6, 0.96]))
+            y = float(axis[j] + frac * (axis[j2] - axis[j]))
         elif where == "below-range":
             y = float(axis[0] - rng.uniform(1, 50))
         else:
